@@ -7,6 +7,23 @@ HERE = os.path.dirname(os.path.dirname(os.path.abspath(__file__)))
 
 # property -> (technique, level text, level note, design ref)
 CLAIMED = {
+    "C01": (
+        "sibling analysis of every encode/decode pair: save/move/restore pairing by CFG "
+        "must-pass-through queries, role-normalised comparison of all cursor positioning writes "
+        "(incl. the zero-padding idiom) between encoder and decoder, must-pass recording of key "
+        "parameters, both-directions exhaustiveness over the three factories, (type, encoding) "
+        "case-set equality of emplace/extract, same-walk check of the composite codec, "
+        "terminator-rule agreement",
+        "Decides the positional/key protocol the round trip rests on, for every codec class and "
+        "every path: origin, unknown-parameter flag and end-of-PDU flag are saved, changed and "
+        "restored; encoder and decoder position the cursor relative to the same base and "
+        "description field; keys are recorded on all returning paths; every creatable parameter, "
+        "DOP and diag-coded type has both directions; both atomic codecs know the same cases; "
+        "both composite walks visit the same parameter list; MIN-MAX terminators are emitted and "
+        "skipped under mirrored conditions.",
+        "Not decided: equality of the values themselves and whole-PDU consumption (depend on "
+        "compu methods, bit packing and data). Known finding: static TABLE-KEY asymmetry.",
+        "DESIGN.md section 3, C01"),
     "C04": (
         "exception-escape analysis from the encode entry points, definite-assignment analysis, "
         "block-local dominance of every value alteration by an odxraise, symbolic normalisation "
